@@ -5,6 +5,17 @@
   Scalars: `K` is any linearly ordered type with `0, +, *` (the Bellman / recursion
   theorems use nothing else), a linearly ordered field where division is needed.
   `Ext K` is `{-inf} ∪ K` with the order of IEEE doubles; `¬ x < y` reads `y ≤ x`.
+
+  **Histories.** Every operation of the model (`bellman`, `rqSigma`, `tSigma`, `evalPolicyOf`,
+  `backwardInduction`, `toSaPair`, `toProduct`) is a pure function of (problem, arguments):
+  there is no state on the model side, so the theorems below hold for the result of *each* call
+  of any sequence of calls on one instance, and a result, once returned, is that value for
+  ever. For the code this is an additional obligation — results the caller keeps must not be
+  overwritten by later calls, must not alias each other, the inputs or the object's arrays, and
+  the object's `R, Q, s_indices, a_indices, a_indptr` must stay bitwise unchanged. It is not a
+  consequence of any theorem here; it is checked on the real code by the history runs of
+  `harness/c09.py` (`history_*` keys), which also compare every kept result, as it stands at the
+  end of the history, with the pure model.
 -/
 import QEModel.C09
 import QEProofs.Lemmas.C09Max
@@ -34,6 +45,7 @@ variable {K : Type} [Zero K] [Add K] [Mul K] [LinearOrder K]
     `σ[i]`), and every *earlier* pair of the block has a strictly smaller value (first
     maximum: with the pairs of a state in increasing action order, `σ[i]` is the smallest
     maximising action). -/
+-- (history independence: `d.bellman v` depends on `d` and `v` only — see the header note)
 theorem bellman_spec_sa (d : SaDDP K) (v : List K) (i : Nat) (hi : i < d.n)
     (hne : d.aIndptr.getD i 0 < d.aIndptr.getD (i + 1) 0)
     (hhi : d.aIndptr.getD (i + 1) 0 ≤ d.R.length)
